@@ -82,7 +82,7 @@ def run(ctx):
         gen = ctx.cfg('Gen_Record', constants={'Depth': 3, 'Rich': 'FALSE'})
         ctx.tlc('Gen_Record', gen, capture='cases.ndjson', timeout=1500, heap='8g')
         sim = ctx.cfg('Gen_Record', name='Gen_Record_sim', constants={'Depth': 8, 'Rich': 'TRUE', 'MaxNF': 8})
-        ctx.tlc('Gen_Record', sim, capture='cases.ndjson', simulate=60000, depth=9, workers=1, timeout=1500)
+        ctx.tlc('Gen_Record', sim, capture='cases.ndjson', simulate=12000, depth=9, workers=1, timeout=1500)
         ctx.cov['exhaustive'] = True
     ctx.replay('cases.ndjson', label='gen-record', min_cases=1000, corrupt=corrupt)
     # 3. code -> spec: recorded traces validated by TLC
